@@ -240,6 +240,104 @@ pub fn friphase(lb: usize, lf: usize, in_cap: usize, phases: &[(usize, usize)], 
     }
 }
 
+/// Correspondence with `P3R.Packing.friSibCheck`: the shape loop at the head of the real
+/// `verify_fri_circuit` on a FRI proof whose query proofs carry the given commit-phase steps
+/// `(log_arity, sibling_values.len())`. Everything else about the proof is consistent with the
+/// schedule of the first query (one committed matrix of width 1 and maximal height, `log_blowup = 1`,
+/// constant final polynomial, single-root caps), so the answer is which check of that loop fired.
+/// Route: the PCS's own `RecursivePcs::verify_circuit` (what `verify_p3_uni_proof_circuit` /
+/// `verify_batch_circuit` call) whenever the schedule fits the field (`Σ log_arity + 1 <= 27`);
+/// `sibcheck ok` then means the whole PCS verifier circuit was emitted. A schedule beyond that is
+/// stopped by `verify_circuit`'s `log_max_height` bound before `verify_fri_circuit` runs, so for those
+/// (log-arities up to 255: the region where the old code overflowed `1usize << log_arity`) the public
+/// `verify_fri_circuit` is called directly with one index bit per query; getting past the loop then
+/// shows as its next refusal ("log_max_height too small").
+pub fn sibcheck(queries: &[Vec<(usize, usize)>]) -> String {
+    use p3_recursion::traits::{Recursive, RecursivePcs};
+    use p3_uni_stark::StarkGenericConfig as _;
+    type Dom = p3_field::coset::TwoAdicMultiplicativeCoset<F>;
+    let salted = salts_mut(&mut mk_mmcs(vec![])).is_some();
+    let (lb, lf) = (1usize, 0usize);
+    let sched: Vec<usize> = queries.first().map(|q| q.iter().map(|p| p.0).collect()).unwrap_or_default();
+    let total: usize = sched.iter().sum();
+    let direct = total + lf + lb > 27;
+    let r = std::panic::catch_unwind(std::panic::AssertUnwindSafe(|| -> Result<(), String> {
+        let config = make_config(1);
+        let mut cb = p3_circuit::CircuitBuilder::<EF>::new();
+        enable_perm(&mut cb);
+        let salts = |n: usize| if salted { vec![4usize; n] } else { vec![] };
+        let shape = super::Pcs {
+            hid: if HIDING { Some(vec![vec![vec![0]]]) } else { None },
+            fri: super::Fri {
+                commits: vec![1; sched.len()],
+                commit_pow: sched.len(),
+                queries: queries
+                    .iter()
+                    .map(|q| super::Query {
+                        input: vec![super::BO { opened: vec![1], salts: salts(1) }],
+                        steps: q.iter().map(|&(a, s)| super::Step { log_arity: a, siblings: s, salts: salts(1) }).collect(),
+                    })
+                    .collect(),
+                final_poly: 1usize << lf,
+            },
+        };
+        let opening = z_pcs(&shape);
+        let opening_t = <OpeningT as Recursive<EF>>::new(&mut cb, &opening);
+        let cap_t = <CapT as Recursive<EF>>::new(&mut cb, &p3_symmetric::MerkleCap::new(vec![[F::ZERO; DIGEST_ELEMS]; 1]));
+        let challenges: Vec<p3_recursion::Target> = (0..1 + sched.len()).map(|_| cb.alloc_public_input("ch")).collect();
+        if direct {
+            let (_, inner) = split_t(&opening_t);
+            let bits: Vec<Vec<p3_recursion::Target>> = queries.iter().map(|_| vec![cb.alloc_public_input("bit")]).collect();
+            let coms: Vec<(CapT, Vec<(Dom, Vec<(p3_recursion::Target, Vec<p3_recursion::Target>)>)>)> = vec![];
+            return p3_recursion::pcs::fri::verify_fri_circuit::<F, EF, RecExt, RecVal, p3_recursion::pcs::fri::Witness<F>, CapT>(
+                &mut cb,
+                inner,
+                challenges[0],
+                &challenges[1..],
+                &bits,
+                &coms,
+                lb,
+                None,
+            )
+            .map(|_| ())
+            .map_err(|e| format!("{e:?}"));
+        }
+        let z = cb.alloc_public_input("z");
+        let vals = vec![cb.alloc_public_input("v")];
+        let dom = Dom::new(F::ONE, total + lf).ok_or("domain")?;
+        let coms: Vec<(CapT, Vec<(Dom, Vec<(p3_recursion::Target, Vec<p3_recursion::Target>)>)>)> = vec![(cap_t, vec![(dom, vec![(z, vals)])])];
+        let mut ch = p3_recursion::CircuitChallenger::<WIDTH, RATE, _>::new(perm_config());
+        let params = p3_recursion::pcs::fri::FriVerifierParams::with_mmcs(lb, lf, 1, 1, perm_config());
+        <ThePcs as RecursivePcs<SC, InputT, OpeningT, CapT, Dom>>::verify_circuit::<WIDTH, RATE, _>(config.pcs(), &mut cb, &challenges, &mut ch, &coms, &opening_t, &params)
+            .map_err(|e| format!("{e:?}"))?;
+        cb.build().map(|_| ()).map_err(|e| format!("build:{e:?}"))
+    }));
+    let clean = |m: String| m.chars().filter(|c| c.is_alphanumeric() || *c == '_').take(60).collect::<String>();
+    // `… query {q} phase {k}: …` / `… query {q}: …` / `phase {k}: …`
+    let num_after = |m: &str, key: &str| -> String {
+        m.find(key).map(|i| m[i + key.len()..].chars().take_while(|c| c.is_ascii_digit()).collect()).unwrap_or_default()
+    };
+    match r {
+        Err(p) => format!("sibcheck panic:{}", clean(super::panic_msg(p))),
+        Ok(Ok(())) => "sibcheck ok".into(),
+        Ok(Err(m)) => {
+            if m.contains("sibling coefficient count") {
+                format!("sibcheck error:sib:{}:{}", num_after(&m, "query "), num_after(&m, " phase "))
+            } else if m.contains("log_arity disagrees with global FRI schedule") {
+                format!("sibcheck error:arity:{}:{}", num_after(&m, "query "), num_after(&m, " phase "))
+            } else if m.contains("commit-phase opening count must equal") {
+                format!("sibcheck error:count:{}", num_after(&m, "query "))
+            } else if m.contains("log_arity must be at least 1") {
+                format!("sibcheck error:zero:{}", num_after(&m, "phase "))
+            } else if direct && m.contains("log_max_height too small") {
+                "sibcheck ok".into()
+            } else {
+                format!("sibcheck other:{}", clean(m))
+            }
+        }
+    }
+}
+
 pub enum Op<'a> {
     Walk(&'a mut dyn Vis),
     /// structural walk: enumerate / apply / undo one shape mutation (see `ShapeVis`)
